@@ -13,7 +13,9 @@ EXPLANATION = (
     "MAX_BLOCK_HEADERS_PER_RESPONSE = 100, effective end = min(end or tip, start + 100 - 1); R3 the error table in "
     "order (start > tip, end < start, end > tip) against main_chain_height; R4 the unstable part is a slice of the best "
     "chain indexed by height - stable_height (start saturating), skipped when the range ends below stable_height; "
-    "tip_height of the response is the effective end; R5 stored header blobs are 80 bytes. "
+    "tip_height of the response is the effective end; R5 stored header blobs are 80 bytes; R6 the stable store writes "
+    "headers[hash] and heights[height] = hash together, from the block's own header and hash, and serves a range by walking "
+    "the height index in key order and looking each hash up. "
     "Does NOT decide: prev-hash linkage of the stored headers (a data fact); all (start, end) pairs by value.")
 RULES = {
     'R1': 'stable read bounded below stable_height, or NOPATH(header insert ⇝ Paused)',
@@ -21,6 +23,7 @@ RULES = {
     'R3': 'decision table of verify_and_return_effective_range',
     'R4': 'EXPR of the unstable slice; response tip_height',
     'R5': 'BlockHeaderBlob size',
+    'R6': 'stable header store: height index and header map written together, range read by height',
 }
 ASSUMPTIONS = []
 GH = 'ic_btc_canister::api::get_block_headers::'
@@ -138,6 +141,7 @@ def run(ctx):
             ek = ex(prog, k)
             ok = P.call(ST + 'GenericState::stable_height', P.anything)(ek.operand(c.args[1])) and P.call('core::ops::range::RangeInclusive::new', P.has(P.either(P.upvar(), P.var(), P.field('0', P.anything))), P.has(P.either(P.upvar(), P.var(), P.field('1', P.anything))))(ek.operand(c.args[2]))
         ctx.check(ok, 'R4', 'unstable-inputs', ua[0][1] if ua else f, 'the unstable part is asked for (stable_height, start..=end)', 'unstable accessor inputs not recognised')
+    r6(ctx)
     # ---------------- R5 ------------------------------------------------------------------------
     fbs = prog.find('<ic_btc_canister::types::BlockHeaderBlob as core::convert::From>::from')
     okb = False
@@ -162,3 +166,37 @@ def run(ctx):
     okb = okb or (bound_ok and asserted)
     sz = []
     ctx.check(okb or bool(sz), 'R5', 'blob-size-80', fb or '', 'BlockHeaderBlob is asserted to be 80 bytes', 'no 80-byte size check for BlockHeaderBlob found')
+
+
+def r6(ctx):
+    prog = ctx.prog
+    BHS = 'ic_btc_canister::block_header_store::BlockHeaderStore::'
+    f = ctx.fn('R6', BHS + 'insert')
+    if f:
+        e = ex(prog, f)
+        ins = [c for c in f.calls() if not c.cleanup and c.matches('ic_stable_structures::btreemap::BTreeMap::insert')]
+        d = {}
+        for c in ins:
+            tgt = [x[2] for x in walk(e.operand(c.args[0])) if x[0] == 'field' and x[2] in ('block_headers', 'block_heights')]
+            if tgt:
+                d[tgt[0]] = (e.operand(c.args[1]), e.operand(c.args[2]))
+        good = set(d) == {'block_headers', 'block_heights'} and P.param('block_hash')(d['block_headers'][0]) and P.param('header_blob')(d['block_headers'][1]) and \
+            P.param('height')(d['block_heights'][0]) and P.param('block_hash')(d['block_heights'][1]) and not any(cond_exprs(prog, f, c.bb) for c in ins)
+        ctx.check(good, 'R6', 'store-insert', f, 'insert writes headers[hash] = blob and heights[height] = hash, unconditionally', 'BlockHeaderStore::insert writes %s' % {k: (show(v[0]), show(v[1])) for k, v in d.items()})
+    f = ctx.fn('R6', BHS + 'insert_block')
+    if f:
+        e = ex(prog, f)
+        cs = [c for c in f.calls_to(BHS + 'insert') if not c.cleanup]
+        enc = [c for c in f.calls() if not c.cleanup and c.matches('*::consensus_encode')]
+        good = len(cs) == 1 and len(enc) == 1 and P.has(P.call('ic_btc_types::Block::block_hash', P.param('block')))(e.operand(cs[0].args[1])) and \
+            P.call('ic_btc_types::Block::header', P.param('block'))(e.operand(enc[0].args[0])) and P.param('height')(e.operand(cs[0].args[3]))
+        ctx.check(good, 'R6', 'store-insert_block', f, 'insert_block stores the block\'s own encoded header under the block\'s own hash at the given height', 'insert_block arguments not recognised')
+    f = ctx.fn('R6', BHS + 'get_block_headers_in_range')
+    if f:
+        r = ex(prog, f).local(0)
+        good = P.call('core::iter::traits::iterator::Iterator::map', P.call('ic_stable_structures::btreemap::BTreeMap::range', P.field('block_heights', P.param('self')), P.param('heights')), P.anything)(r)
+        okc = False
+        for k in prog.children(f):
+            rr = ex(prog, k).local(0)
+            okc = okc or P.has(P.call('ic_stable_structures::btreemap::BTreeMap::get', P.has(P.field('block_headers')), P.has(P.call('*::value', P.anything))))(rr)
+        ctx.check(good and okc, 'R6', 'store-range', f, 'a range is served by walking the height index over `heights` and looking up each entry\'s hash in the header map', 'range read is %s' % show(r)[:200])
